@@ -1,6 +1,18 @@
 """C15 — Frame slice and sample selectors select what they say (TotalDepth/common/Slice.py)."""
 import itertools, re
 
+CLAIM = {
+ 'text': ('Lean 4 theorems for all n, start, stop, step>=1 and all sample sizes (slice_indices_eq_python, '
+          'slice_reports_agree, sample_eq_spec, sample_count, sample_shape, parse_* lemmas) about a model of '
+          'common/Slice.py; the model is tied to the source on every run by an exhaustive small-scope + random '
+          'correspondence with the real Slice/Sample/create_slice_or_sample. Proof is the right level: the property is '
+          'pure integer arithmetic quantified over unbounded n.'),
+ 'note': ('Trusted: Lean kernel; model<->code correspondence on the cases of the run; builtin slice.indices/range/int are '
+          'modelled (CPython arithmetic transcribed), not verified. Option strings restricted to ASCII.'),
+ 'technique': 'Lean 4 proof (induction, omega) + model-implementation correspondence',
+ 'design_ref': 'DESIGN.md section 6 C15',
+}
+
 RULE = ('slice: exhaustive (n, start, stop, step) over a small scope + random large n; sample: all (N, n) in a grid + '
         'random large; option strings from a grammar + a malformed stream. A case is non-trivial when it selects at '
         'least 2 indices and fewer than n (slice/sample) or is an accepted/rejected option string class; distinct by '
